@@ -804,6 +804,12 @@ vh_run(const VhTok* tape, size_t n, VhReport* rep)
         else
             cap = 512 + b % 3585; // ..4096
         ti = 1;
+        // the origin of the (virtual) clock is arbitrary: often just before a full second, so that code
+        // which does arithmetic on timespecs meets the carry
+        static const uint64_t before[4] = { 0, 500000, 1500000, 1990000 };
+        unsigned o = (tape[0].a >> 3) % 8;
+        if (o >= 4)
+            vsim::set_now_ns((uint64_t)(1 + o) * 1000000000ull - before[o % 4] - 1);
     }
     x.c.trace("CFG capacity=%zu", cap);
     x.c.mix(cap);
@@ -945,8 +951,12 @@ vh_run(const VhTok* tape, size_t n, VhReport* rep)
                 x.c.mix(0xa00 + x.prelock);
                 break;
         }
-        if (vsim::error() && !x.c.ended)
-            x.c.fail("C03", "platform-misuse", "vsim", "%s", vsim::error());
+        if (vsim::error() && !x.c.ended) {
+            // the mutex / condition protocol was broken (unlock by a non-owner, wait without the lock):
+            // the channel's critical sections are no longer exclusive, which all three properties rest on
+            const char* prop = vh_focus && (!strcmp(vh_focus, "C01") || !strcmp(vh_focus, "C02")) ? vh_focus : "C03";
+            x.c.fail(prop, "platform-misuse", "vsim", "%s", vsim::error());
+        }
     }
 
     // ---- end of case: everything must drain ----------------------------------------------------
